@@ -425,9 +425,14 @@ def stream_layers(run, tf, qkeras, rng, tier):
         else:
           okq = all(abs(a - b) <= tolc * m for a, b, m in zip(yi, y_model, mag))
         if not okq:
-          t = next(i for i, (a, b) in enumerate(zip(yi, y_model)) if a != b)
-          run.violate("quantized_form", key, {"case": case_desc(c), "index": t, "layer": float(yi[t]),
-                                              "expected": float(y_model[t])}, mirrored=False)
+          t = next((i for i, (a, b) in enumerate(zip(yi, y_model)) if a != b), None)
+          if t is None:   # same prefix, different number of output elements (wrong output geometry)
+            run.violate("quantized_form", dict(key, why="output-size"),
+                        {"case": case_desc(c), "layer_elements": len(yi), "expected_elements": len(y_model)},
+                        mirrored=False)
+          else:
+            run.violate("quantized_form", key, {"case": case_desc(c), "index": t, "layer": float(yi[t]),
+                                                "expected": float(y_model[t])}, mirrored=False)
     # (c) unfolded layer with the transferred weights == folded layer (model side: C15_unfold)
     if dec(o["uy"]) != y_model or dec(o["uk"]) != fk_m or dec(o["ub"]) != fb_m:
       run.disagree("layer:unfold_model_side", case_desc(c), "uy/uk/ub", "y/fk/fb")
